@@ -36,7 +36,9 @@ Proof.
 Qed.
 
 Definition toy_uuid_parse (s : bytes) : option bytes :=
-  if uuid_text_ok s then hex_decode (filter (fun c => negb (b2n c =? 45)%N) s) else None.
+  if uuid_text_ok s then
+    match hex_decode (filter (fun c => negb (b2n c =? 45)%N) s) with Some u => Some u | None => Some (gen s 16) end
+  else None.
 
 Definition toy : prims := {|
   scrypt := fun pw salt N r p dk => gen (pw ++ salt ++ [n2b (Z.to_N (N mod 251))]) (Z.to_nat dk);
@@ -63,4 +65,79 @@ Proof.
     pose proof (Z.div_mod (dklen + 31) 32). lia.
   - apply gen_go_length.
   - rewrite map_map. rewrite <- (map_id x) at 2. apply map_ext. apply flip_flip.
+Qed.
+
+Lemma toy_uuid_accepts_text : uuid_accepts_text toy.
+Proof.
+  intros s H. cbn [toy uuid_parse]. unfold toy_uuid_parse. rewrite H.
+  destruct (hex_decode (filter (fun c => negb (b2n c =? 45)%N) s)); discriminate.
+Qed.
+
+(* ---------- with a verified printer / parser: every law C07_roundtrip asks for ---------- *)
+From FFS Require Import Keystore.JsonFacts Keystore.Codec.
+
+Definition toy_codec : prims := {|
+  scrypt := scrypt toy; scrypt_cap := scrypt_cap toy; pbkdf2 := pbkdf2 toy; aes_ctr := aes_ctr toy;
+  hash := hash toy; pubkey := pubkey toy;
+  json_parse := Codec.parse; json_print := Codec.print;
+  json_num := fun l => Some l;
+  uuid_parse := toy_uuid_parse
+|}.
+
+Lemma toy_codec_crypto_laws : crypto_laws toy_codec.
+Proof. destruct toy_crypto_laws as [A B C D E]. constructor; assumption. Qed.
+
+Lemma hex_digit_not_dash (n : N) : (n < 16)%N -> (b2n (hex_digit n) =? 45)%N = false.
+Proof.
+  intros H. apply N.eqb_neq. rewrite <- (N2Nat.id n). rewrite b2n_hex_digit_nat by lia.
+  destruct (N.of_nat (N.to_nat n) <? 10)%N eqn:E; lia.
+Qed.
+
+Definition nondash (c : byte) : bool := negb (b2n c =? 45)%N.
+
+Lemma hex_encode_nondash b : Forall (fun c => nondash c = true) (hex_encode b).
+Proof.
+  induction b as [|x b IH]; [constructor|]. unfold hex_encode in *. cbn [flat_map app].
+  constructor; [unfold nondash; rewrite hex_digit_not_dash by apply hi_lt; reflexivity|].
+  constructor; [unfold nondash; rewrite hex_digit_not_dash by apply lo_lt; reflexivity|]. exact IH.
+Qed.
+
+Lemma filter_all {A} (p : A -> bool) l : Forall (fun c => p c = true) l -> filter p l = l.
+Proof. induction 1 as [|x l Hx Hl IH]; [reflexivity|]. cbn [filter]. rewrite Hx, IH. reflexivity. Qed.
+
+Lemma Forall_firstn {A} (Q : A -> Prop) n l : Forall Q l -> Forall Q (firstn n l).
+Proof. intros H. rewrite <- (firstn_skipn n l) in H. apply Forall_app in H. tauto. Qed.
+Lemma Forall_skipn {A} (Q : A -> Prop) n l : Forall Q l -> Forall Q (skipn n l).
+Proof. intros H. rewrite <- (firstn_skipn n l) in H. apply Forall_app in H. tauto. Qed.
+
+Lemma uuid_pieces {A} (h : list A) :
+  firstn 8 h ++ firstn 4 (skipn 8 h) ++ firstn 4 (skipn 12 h) ++ firstn 4 (skipn 16 h) ++ skipn 20 h = h.
+Proof.
+  change 20%nat with (16 + 4)%nat. rewrite <- (skipn_skipn' 4 16 h), firstn_skipn.
+  change 16%nat with (12 + 4)%nat. rewrite <- (skipn_skipn' 4 12 h), firstn_skipn.
+  change 12%nat with (8 + 4)%nat. rewrite <- (skipn_skipn' 4 8 h), firstn_skipn.
+  apply firstn_skipn.
+Qed.
+
+Lemma toy_uuid_roundtrip u : length u = 16%nat -> toy_uuid_parse (uuid_string u) = Some u.
+Proof.
+  intros Lu. unfold toy_uuid_parse. rewrite (uuid_string_ok u Lu).
+  assert (F : filter nondash (uuid_string u) = hex_encode u).
+  { unfold uuid_string. pose proof (hex_encode_nondash u) as H.
+    rewrite !filter_app.
+    change (filter nondash [x2d]) with (@nil byte). cbn [app].
+    repeat rewrite filter_all by (repeat (apply Forall_firstn || apply Forall_skipn); exact H).
+    apply uuid_pieces. }
+  change (fun c : byte => negb (b2n c =? 45)%N) with nondash. rewrite F, hex_decode_encode. reflexivity.
+Qed.
+
+Lemma toy_codec_laws :
+  (forall t, json_text_ok t = true -> json_parse toy_codec (json_print toy_codec t) = Some t) /\
+  (forall u, length u = 16%nat -> uuid_parse toy_codec (uuid_string u) = Some u) /\
+  (forall z, json_num toy_codec (print_Z z) <> None).
+Proof.
+  split; [|split].
+  - intros t _. apply Codec.parse_print.
+  - exact toy_uuid_roundtrip.
+  - intros z. discriminate.
 Qed.
